@@ -248,7 +248,7 @@ func (c *Ctx) growRules() {
 	var mu *ssa.MapUpdate
 	for _, b := range fn.Blocks {
 		for _, in := range b.Instrs {
-			if x, ok := in.(*ssa.MapUpdate); ok && ir.PathOf(x.Map).Class() == "sessions.Ackqueue.emap" {
+			if x, ok := in.(*ssa.MapUpdate); ok && isIndexMap(x.Map) {
 				mu = x
 			}
 		}
